@@ -215,3 +215,12 @@ Definition enc_result (r : result built) : list Z :=
   end.
 
 Definition run_case (c : list out * params) : list Z := enc_result (build_send (fst c) (snd c)).
+
+(** build_send_tx as the late-locked finalize calls it: the selection is redone, and refused
+    unless it needs exactly the fee fixed when the send was initiated (the fee the counterparty
+    has signed for) *)
+Definition build_send_fixed (os : list out) (p : params) (fixed : N) : result built :=
+  let* b := build_send os p in
+  if b_fee b =? fixed then Ok b else Err EFee.
+Definition run_case_fixed (c : list out * params * N) : list Z :=
+  enc_result (build_send_fixed (fst (fst c)) (snd (fst c)) (snd c)).
